@@ -283,3 +283,18 @@ def run(c, chk):
         chk.fail('R19.4', 'sibling-count', c.where(op), '%d built-in value writer sites but only %d print-callback sites' % (nb, npf))
     else:
         chk.ok('R19.4', 'sibling sites', '%d built-in writer sites, %d callback sites' % (nb, npf), nontrivial=False)
+
+
+def list_commented_out(c):
+    """instruction at which a list option can be written commented out, or None"""
+    op = c.need('cfg_opt_print_pff_indent')
+    ex3 = sym.Explorer(c.modules, max_visits=3, mod_sets=c.mod_sets, max_paths=200000)
+    for p in ex3.explore(op):
+        if p.end != 'ret':
+            continue
+        conds = [('' if t else '!') + pm.describe_cond(cn) for cn, t, _ in p.assume]
+        if 'opt->flags has LIST' in conds and '!opt->type eq SEC' in conds:
+            for x in p.events:
+                if x.kind == 'call' and x.name == 'fprintf' and len(x.args) > 1 and x.args[1] == ('str', '# '):
+                    return x.ins
+    return None
